@@ -73,6 +73,7 @@ type C struct {
 	bce       map[string]bool
 	bceErr    error
 	aliasMemo map[string]string
+	scope     []string
 }
 
 func (c *C) Count(name string, n int) { c.Counts[name] += n }
@@ -85,6 +86,18 @@ func (c *C) pos(p token.Pos) string { return c.P.Pos(p) }
 // Add records an obligation; status Violated is downgraded to Excepted/Known when a table entry matches.
 func (c *C) Add(rule string, fn string, construct string, pos token.Pos, ok bool, detail string) *Obligation {
 	o := &Obligation{Rule: rule, Func: fn, Construct: construct, Pos: c.pos(pos), Detail: detail}
+	if len(c.scope) > 0 && pos.IsValid() {
+		in := false
+		for _, pre := range c.scope {
+			if strings.HasPrefix(o.Pos, pre) {
+				in = true
+			}
+		}
+		if !in {
+			o.Status = Discharged
+			return o // outside this property's anchor files: reported under the property that owns the file
+		}
+	}
 	if ok {
 		o.Status = Discharged
 	} else {
